@@ -191,7 +191,7 @@ pub fn run(ctx: &Ctx) {
         st.class_n("version-sensitive (type, version) pairs", sens.iter().map(|v| v.len() as u64).sum());
         ctx.merge(st);
     }
-    let cases = ctx.tier.pick(8_000u64, 400_000u64);
+    let cases = ctx.tier.pick(100_000u64, 1_000_000u64);
     let strat = (0..NVER, any::<u32>(), proptest::collection::vec(any::<u32>(), 0..80), 0..NVER, any::<bool>(), any::<bool>());
     let reach: Vec<Vec<usize>> = (0..NVER).map(crate::c01::reachable).collect();
     run_prop(ctx, "compat", cases, strat, |(vi, tsel, tape, target, any_type, other_first), st| {
